@@ -20,6 +20,7 @@ SendClause(e) ==
        (IF e.exc # "ValueError" THEN <<"C01.Reject", "expected ValueError, got " \o e.exc>>
         ELSE IF e.ntxcmd > 0 \/ Len(air) > 0 THEN <<"C01.Reject", "rejected payload reached the radio">>
         ELSE <<"ok", "">>)
+  ELSE IF e.exc = "Hang" THEN <<"C02.Bounded", "the call never returned">>
   ELSE IF e.exc # "none" THEN <<"C01.Reject", "valid payload raised " \o e.exc>>
   ELSE IF \E i \in 1..Len(air) : air[i].data # data THEN <<"C02.OnlyOwnPayload", "foreign payload on air during the call">>
   ELSE IF e.lossfree /\ ~(\E i \in 1..Len(air) : air[i].new)
@@ -110,6 +111,8 @@ Step == /\ l <= Len(T.ev) /\ l' = l + 1 /\ tid' = tid
              [] e.k = "resend" -> /\ verdict' = ResendClause(e)
                                   /\ failed' = IF Truthy(e.res) THEN None ELSE failed
              [] e.k = "stream" -> verdict' = StreamClause(e) /\ failed' = None
+             [] e.k = "queue" -> /\ verdict' = (IF Len(e.air) > 0 THEN <<"C02.OnlyOwnPayload", "write_only payloads were transmitted while CE is low">> ELSE <<"ok", "">>)
+                                 /\ failed' = None
              [] e.k = "txread" -> /\ verdict' = (IF Len(e.air) > 0 THEN <<"C02.OnlyOwnPayload", "reading the RX FIFO transmitted something">> ELSE <<"ok", "">>)
                                   /\ failed' = failed       \* reading ACK payloads does not touch the failed payload
              [] e.k = "drain" -> verdict' = DrainClause(e, T.ev[l - 1]) /\ failed' = failed
